@@ -459,6 +459,8 @@ def run_native_unit(prop, unit, tier, report):
     target = os.path.join(BUILD, prop, unit["name"], "target")
     os.makedirs(os.path.dirname(target), exist_ok=True)
     env = dict(os.environ); env["CARGO_NET_OFFLINE"] = "true"; env["H33P_CGLUE_VERIF_DIR"] = os.path.join(VERIF, "kani", "_empty")
+    for k, v in (unit.get("env", {}).get(tier) or {}).items():
+        env[k] = str(v)
     cmd = ["cargo", "run", "--offline", "--quiet", "--target-dir", target]
     rc, out, dt = sh(cmd, env=env, cwd=crate_dir, timeout=unit.get("wall_s", {}).get(tier, 1200))
     open(os.path.join(BUILD, prop, unit["name"], f"native-{tier}.log"), "w").write(out)
@@ -479,7 +481,8 @@ def run_native_unit(prop, unit, tier, report):
                "covers": None, "covers_sat": None, "time_s": None, "failed_checks": [], "verdict": "pass" if verdict == "ok" else "fail",
                "unit_cfg": unit, "raw": f"CASE {name} expect={expect} got={got} {verdict}"}
         if verdict != "ok":
-            fc = {"description": f"C20 compare_layouts on definition pair '{name}': expected {expect}, got {got}", "location": os.path.join(crate_dir, "src/main.rs")}
+            desc = unit.get("fail_desc", "C20 compare_layouts on definition pair '{name}': expected {expect}, got {got}").format(name=name, expect=expect, got=got)
+            fc = {"description": desc, "location": os.path.join(crate_dir, "src/main.rs")}
             rec["failed_checks"] = [fc]; rec["real_failed"] = [fc]
             rec["native_case"] = {"case": name, "expected": expect, "got": got, "rerun": "cd " + crate_dir + " && " + " ".join(cmd)}
         report["harnesses"].append(rec)
